@@ -301,30 +301,10 @@ def hex_byte_range(e):
     hex(raw[a..b]) -> (a, b)"""
     e = strip(e)
     RAW = P.field(P.param(1), "raw")
-    HEX = P.call(name="encode", fn="hex::encode", args=[RAW])
-    if e.k == "call" and e.a[0].name == "index" and len(e.a[1]) == 2 and P.match(e.a[1][0], HEX) is not None:
-        r = shapes.range_of(e.a[1][1])
-        if r is None:
-            return None
-        lo, hi = r
-        hexlen = 64
-
-        def val(x, default):
-            if x is None:
-                return default
-            if isinstance(x, int):
-                return x
-            if isinstance(x, tuple) and x[0] == "expr":
-                ex = strip(x[1])
-                if ex.k == "field" and ex.a[1] == "0" and ex.a[0].k == "binop":
-                    ex = ex.a[0]
-                if ex.k == "binop" and ex.a[0] in ("Sub", "SubWithOverflow"):
-                    a, b = strip(ex.a[1]), strip(ex.a[2])
-                    if a.k == "call" and a.a[0].name == "len" and P.match(a.a[1][0], HEX) is not None and b.k == "const":
-                        return hexlen - b.a[0]
-            return None
-        lo, hi = val(lo, 0), val(hi, hexlen)
-        if lo is None or hi is None or lo % 2 or hi % 2:
+    sub = shapes.ascii_sub(e)
+    if sub is not None and not (sub[1] == 0 and sub[0] is e):
+        root, lo, hi = sub
+        if P.match(root.a[1][0], RAW) is None or lo % 2 or hi % 2:
             return None
         return (lo // 2, hi // 2)
     if e.k == "call" and e.a[0].name == "encode" and "hex::encode" in e.a[0].fn and e.a[1]:
